@@ -522,6 +522,8 @@ def run_given(ctx: Ctx, strategy, body, max_examples: int, salt: int = 0, shrink
                 ctx.fail_exc('unclassified', e)
             except Violation:
                 ctx.record_violation()
+            except AlreadyReported:
+                return
 
 
 def run_machine(ctx: Ctx, machine_cls, max_examples: int, steps: int, salt: int = 0, shrink: bool = True):
@@ -560,6 +562,8 @@ def run_machine(ctx: Ctx, machine_cls, max_examples: int, steps: int, salt: int 
                 ctx.fail_exc('unclassified', e)
             except Violation:
                 ctx.record_violation()
+            except AlreadyReported:
+                return
 
 
 # --------------------------------------------------------------------------
